@@ -7,6 +7,7 @@ From Coq Require Import Lia.
 Open Scope nat_scope.
 
 Section XSteps.
+  Variable p : program.                    (* the whole program: callees are run by run_fn (big step) *)
   Variable name : str.
   Variable code : list instr.
 
@@ -157,23 +158,70 @@ Section XSteps.
   Qed.
 
   (* ---------------------------------------------------------------- one instruction, by outcome *)
-  Definition xrun (a : act) (g : gstate) (a' : act) (g' : gstate) : Prop := xreach (Running a g) (Running a' g').
-  Definition xfail (a : act) (g : gstate) (e : err) (g' : gstate) : Prop := xreach (Running a g) (Failed e g').
+  (* runs of the current activation: machine steps, and CALLS taken in one big step (the callee is the interpreter
+     itself, run_fn with some fuel) *)
+  Definition next_act (a1 : act) (rv : option value) : act :=
+    set_ip (match rv with Some v => set_ops a1 (a_ops a1 ++ [v]) | None => a1 end) (S (a_ip a1)).
+
+  Inductive xrun : act -> gstate -> act -> gstate -> Prop :=
+  | xr_refl : forall a g, xrun a g a g
+  | xr_step : forall a g a1 g1 a' g', xstep a g = Running a1 g1 -> xrun a1 g1 a' g' -> xrun a g a' g'
+  | xr_call : forall a g i d dest cb argv a1 g1 fuel rv g2 a' g',
+      nth_error code (a_ip a) = Some i -> decode i = DOk d ->
+      exec_d d a (trc name a g i) = SCall dest cb argv a1 g1 ->
+      run_fn fuel p dest argv cb g1 = RDone rv g2 ->
+      xrun (next_act a1 rv) g2 a' g' -> xrun a g a' g'.
+
+  Definition xfail_at (a : act) (g : gstate) (e : err) (g' : gstate) : Prop :=
+    xstep a g = Failed e g' \/
+    exists i d dest cb argv a1 g1 fuel,
+      nth_error code (a_ip a) = Some i /\ decode i = DOk d /\
+      exec_d d a (trc name a g i) = SCall dest cb argv a1 g1 /\ run_fn fuel p dest argv cb g1 = RFail e g'.
+  Definition xfail (a : act) (g : gstate) (e : err) (g' : gstate) : Prop :=
+    exists a1 g1, xrun a g a1 g1 /\ xfail_at a1 g1 e g'.
 
   Lemma xrun_refl : forall a g, xrun a g a g.
-  Proof. intros. apply xreach_refl. Qed.
+  Proof. intros. apply xr_refl. Qed.
   Lemma xrun_trans : forall a g a1 g1 a2 g2, xrun a g a1 g1 -> xrun a1 g1 a2 g2 -> xrun a g a2 g2.
-  Proof. intros. eapply xreach_trans; eassumption. Qed.
+  Proof.
+    intros a g a1 g1 a2 g2 H. revert a2 g2. induction H; intros ax gx Hnext; [exact Hnext| |].
+    - eapply xr_step; [eassumption|]. now apply IHxrun.
+    - eapply xr_call; try eassumption. now apply IHxrun.
+  Qed.
   Lemma xrun_fail : forall a g a1 g1 e g2, xrun a g a1 g1 -> xfail a1 g1 e g2 -> xfail a g e g2.
-  Proof. intros. eapply xreach_trans; eassumption. Qed.
+  Proof. intros a g a1 g1 e g2 H (a2 & g3 & H2 & H3). exists a2, g3. split; [eapply xrun_trans; eassumption|exact H3]. Qed.
+  Lemma xrun_step1 : forall a g a1 g1, xstep a g = Running a1 g1 -> xrun a g a1 g1.
+  Proof. intros. eapply xr_step; [eassumption|apply xr_refl]. Qed.
+  Lemma xfail_step1 : forall a g e g', xstep a g = Failed e g' -> xfail a g e g'.
+  Proof. intros a g e g' H. exists a, g. split; [apply xr_refl|now left]. Qed.
+
+  Lemma xreach_xrun : forall n a g a' g', xsteps n (Running a g) = Running a' g' -> xrun a g a' g'.
+  Proof.
+    induction n as [|n IH]; intros a g a' g' H.
+    - cbn in H. inversion H; subst. apply xr_refl.
+    - cbn [xsteps] in H. destruct (xstep a g) as [a1 g1|e1 g1|] eqn:E.
+      + eapply xr_step; [exact E|]. now apply IH.
+      + rewrite xsteps_stop_failed in H. discriminate.
+      + rewrite xsteps_stop_escaped in H. discriminate.
+  Qed.
+  Lemma xreach_xfail : forall n a g e g', xsteps n (Running a g) = Failed e g' -> xfail a g e g'.
+  Proof.
+    induction n as [|n IH]; intros a g e g' H; [discriminate|].
+    cbn [xsteps] in H. destruct (xstep a g) as [a1 g1|e1 g1|] eqn:E.
+    - eapply xrun_fail; [eapply xrun_step1; exact E|]. now apply IH.
+    - rewrite xsteps_stop_failed in H. inversion H; subst. now apply xfail_step1.
+    - rewrite xsteps_stop_escaped in H. discriminate.
+  Qed.
   Lemma run_ok_xrun : forall d lo hi a g a' g', run_ok name code d lo hi a g a' g' -> xrun a g a' g'.
-  Proof. intros d lo hi a g a' g' [R _]. now apply reaches_xreach_running. Qed.
+  Proof. intros d lo hi a g a' g' [R _]. destruct (reaches_xreach_running _ _ _ _ R) as [n H]. eapply xreach_xrun. exact H. Qed.
+  Lemma reaches_xfail : forall a g e g', reaches name code (Running a g) (Failed e g') -> xfail a g e g'.
+  Proof. intros a g e g' R. destruct (reaches_xreach_failed _ _ _ _ R) as [n H]. eapply xreach_xfail. exact H. Qed.
 
   Lemma xstep_next : forall a g i dI ip a1 g1, a_ip a = ip -> nth_error code ip = Some i -> decode i = DOk dI ->
     exec_d dI a (trc name a g i) = SNext a1 g1 ->
     xrun a g (set_ip a1 (S (a_ip a1))) g1.
   Proof.
-    intros a g i dI ip a1 g1 Hip Hf Hd He. apply xreach_step. unfold xstep. rewrite Hip, Hf. unfold Model.exec.
+    intros a g i dI ip a1 g1 Hip Hf Hd He. apply xrun_step1. unfold xstep. rewrite Hip, Hf. unfold Model.exec.
     rewrite Hd, He. reflexivity.
   Qed.
 
@@ -181,7 +229,7 @@ Section XSteps.
     exec_d dI a (trc name a g i) = SFail e ->
     xfail a g e (trc name a g i).
   Proof.
-    intros a g i dI ip e Hip Hf Hd He. apply xreach_step. unfold xstep. rewrite Hip, Hf. unfold Model.exec.
+    intros a g i dI ip e Hip Hf Hd He. apply xfail_step1. unfold xstep. rewrite Hip, Hf. unfold Model.exec.
     rewrite Hd, He. reflexivity.
   Qed.
 
@@ -189,7 +237,7 @@ Section XSteps.
     exec_d dI a (trc name a g i) = SGoto off a1 g1 -> goto (length code) (a_ip a1) off = Some t ->
     xrun a g (set_ip a1 t) g1.
   Proof.
-    intros a g i dI ip off a1 g1 t Hip Hf Hd He Hg. apply xreach_step. unfold xstep. rewrite Hip, Hf. unfold Model.exec.
+    intros a g i dI ip off a1 g1 t Hip Hf Hd He Hg. apply xrun_step1. unfold xstep. rewrite Hip, Hf. unfold Model.exec.
     rewrite Hd, He, Hg. reflexivity.
   Qed.
 
@@ -197,7 +245,7 @@ Section XSteps.
     exec_d dI a (trc name a g i) = SPush l a1 g1 ->
     xrun a g (set_ip (set_ss a1 (S (a_ss a1))) (S (a_ip a1))) (push_frame g1 l).
   Proof.
-    intros a g i dI ip l a1 g1 Hip Hf Hd He. apply xreach_step. unfold xstep. rewrite Hip, Hf. unfold Model.exec.
+    intros a g i dI ip l a1 g1 Hip Hf Hd He. apply xrun_step1. unfold xstep. rewrite Hip, Hf. unfold Model.exec.
     rewrite Hd, He. reflexivity.
   Qed.
 
@@ -206,7 +254,7 @@ Section XSteps.
     pop_frames n g1 = Some g2 ->
     xrun a g (set_ip a1 t) g2.
   Proof.
-    intros a g i dI ip off n a1 g1 t g2 Hip Hf Hd He Hg Hp. apply xreach_step. unfold xstep. rewrite Hip, Hf. unfold Model.exec.
+    intros a g i dI ip off n a1 g1 t g2 Hip Hf Hd He Hg Hp. apply xrun_step1. unfold xstep. rewrite Hip, Hf. unfold Model.exec.
     rewrite Hd, He, Hg, Hp. reflexivity.
   Qed.
 
@@ -214,7 +262,7 @@ Section XSteps.
     exec_d dI a (trc name a g i) = SPopScope a1 g1 -> a_ss a1 = S k -> pop_frame g1 = Some g2 ->
     xrun a g (set_ip (set_ss a1 k) (S (a_ip a1))) g2.
   Proof.
-    intros a g i dI ip a1 g1 k g2 Hip Hf Hd He Hs Hp. apply xreach_step. unfold xstep. rewrite Hip, Hf. unfold Model.exec.
+    intros a g i dI ip a1 g1 k g2 Hip Hf Hd He Hs Hp. apply xrun_step1. unfold xstep. rewrite Hip, Hf. unfold Model.exec.
     rewrite Hd, He, Hs, Hp. reflexivity.
   Qed.
 End XSteps.
@@ -423,6 +471,77 @@ Proof.
     + rewrite xsteps_stop_escaped in H. discriminate.
 Qed.
 
-Lemma xrun_nd : forall name code a g a' g', xrun name code a g a' g' -> frames_nd (frames g) -> frames_nd (frames g').
+Lemma xreach_nd : forall name code a g a' g', xreach name code (Running a g) (Running a' g') ->
+  frames_nd (frames g) -> frames_nd (frames g').
 Proof. intros name code a g a' g' [n H]. eapply xsteps_nd. exact H. Qed.
 
+
+(* ================================================================ more fuel does not change a finished run *)
+Lemma loop_mono : forall rc (callee callee' : str -> list value -> option (list (str * N)) -> gstate -> rres) name code,
+  (forall d av cb g r, callee d av cb g = r -> r <> RFuel -> callee' d av cb g = r) ->
+  forall f a g r, loop rc callee name code f a g = r -> r <> RFuel ->
+  forall j, loop rc callee' name code (f + j) a g = r.
+Proof.
+  intros rc callee callee' name code Hc. induction f as [|f IH]; intros a g r H Hr j; [cbn in H; congruence|].
+  cbn [Nat.add loop] in *. destruct (nth_error code (a_ip a)) as [i|]; [|exact H].
+  destruct (Model.exec i a _) as [a1 g1|off a1 g1|l a1 g1|off k a1 g1|a1 g1|rv a1 g1|dest cb argv a1 g1|e]; try exact H.
+  - now apply IH.
+  - destruct (goto (length code) (a_ip a1) off); [now apply IH|exact H].
+  - now apply IH.
+  - destruct (goto (length code) (a_ip a1) off); [|exact H]. destruct (pop_frames k g1); [now apply IH|exact H].
+  - destruct (a_ss a1); [now apply IH|]. destruct (pop_frame g1); [now apply IH|exact H].
+  - destruct (callee dest argv cb g1) as [rv g2|e g2|] eqn:E.
+    + rewrite (Hc _ _ _ _ _ E ltac:(discriminate)). destruct (negb _); [exact H|now apply IH].
+    + rewrite (Hc _ _ _ _ _ E ltac:(discriminate)). exact H.
+    + congruence.
+Qed.
+
+Lemma run_fn_gen_mono : forall rc p f name argv cb g r, run_fn_gen rc f p name argv cb g = r -> r <> RFuel ->
+  forall j, run_fn_gen rc (f + j) p name argv cb g = r.
+Proof.
+  intros rc p. induction f as [|f IH]; intros name argv cb g r H Hr j; [cbn in H; congruence|].
+  cbn [Nat.add]. rewrite run_fn_gen_S in *. destruct (assoc name p) as [code|]; [|exact H].
+  eapply loop_mono; [|exact H|exact Hr]. intros d av cb0 g0 r0 E Hr0. now apply IH.
+Qed.
+
+Lemma run_fn_mono : forall p f f' name argv cb g r, run_fn f p name argv cb g = r -> r <> RFuel -> f <= f' ->
+  run_fn f' p name argv cb g = r.
+Proof.
+  intros p f f' name argv cb g r H Hr Hle. replace f' with (f + (f' - f)) by lia. now apply run_fn_gen_mono.
+Qed.
+
+(* ================================================================ the tie of xrun / xfail to the interpreter loop *)
+Definition rcT : str -> nat -> bool -> bool := fun _ _ _ => true.
+
+Lemma xrun_loop : forall p name code a g a' g', xrun p name code a g a' g' ->
+  exists N n, forall f0, N <= f0 -> forall k,
+    loop rcT (run_fn f0 p) name code (n + k) a g = loop rcT (run_fn f0 p) name code k a' g'.
+Proof.
+  intros p name code a g a' g' H. induction H as [a g|a g a1 g1 a' g' Hs _ IH|a g i d dest cb argv a1 g1 fuel rv g2 a' g' Hi Hd He Hr _ IH].
+  - exists 0, 0. intros f0 _ k. reflexivity.
+  - destruct IH as (N & n & IH). exists N, (S n). intros f0 Hf k.
+    change (S n + k) with (1 + (n + k)).
+    rewrite (xloop_running name code rcT (run_fn f0 p) 1 a g a1 g1); [now apply IH|].
+    cbn [xsteps]. now rewrite Hs.
+  - destruct IH as (N & n & IH). exists (Nat.max fuel N), (S n). intros f0 Hf k.
+    cbn [Nat.add loop]. rewrite Hi. unfold Model.exec. rewrite Hd.
+    change (add_trace g (name, N.of_nat (a_ip a), op i, N.of_nat (length (frames g)), N.of_nat (length (a_ops a))))
+      with (trc name a g i).
+    rewrite He. rewrite (run_fn_mono p fuel f0 dest argv cb g1 _ Hr ltac:(discriminate) ltac:(lia)).
+    cbn [rcT negb]. apply IH. lia.
+Qed.
+
+Lemma xfail_loop : forall p name code a g e g', xfail p name code a g e g' ->
+  exists N n, forall f0, N <= f0 -> forall k, loop rcT (run_fn f0 p) name code (n + k) a g = RFail e g'.
+Proof.
+  intros p name code a g e g' (a1 & g1 & Hr & Hf).
+  destruct (xrun_loop _ _ _ _ _ _ _ Hr) as (N & n & Hrun).
+  destruct Hf as [Hf|(i & d & dest & cb & argv & a2 & g2 & fuel & Hi & Hd & He & Hc)].
+  - exists N, (n + 1). intros f0 Hf0 k. rewrite <- Nat.add_assoc. rewrite (Hrun f0 Hf0).
+    apply (xloop_failed name code rcT (run_fn f0 p) 1 a1 g1 e g'). cbn [xsteps]. now rewrite Hf.
+  - exists (Nat.max fuel N), (n + 1). intros f0 Hf0 k. rewrite <- Nat.add_assoc. rewrite (Hrun f0 ltac:(lia)).
+    cbn [Nat.add loop]. rewrite Hi. unfold Model.exec. rewrite Hd.
+    change (add_trace g1 (name, N.of_nat (a_ip a1), op i, N.of_nat (length (frames g1)), N.of_nat (length (a_ops a1))))
+      with (trc name a1 g1 i).
+    rewrite He. rewrite (run_fn_mono p fuel f0 dest argv cb g2 _ Hc ltac:(discriminate) ltac:(lia)). reflexivity.
+Qed.
